@@ -77,6 +77,19 @@
 //	   collected once it stops being desired. Only the pipeline composes
 //	   namespaced resources here (a P&T base's metadata.namespace is reset by
 //	   RenderFromJSON; placing P&T resources in namespaces needs patches).
+//
+//	M9 Catching-up cache for the XR itself (pipeline mode): the reconciler's FIRST
+//	   read of the XR returns the newest older stored version whose
+//	   spec.resourceRefs differ from the stored ones (the state before the previous
+//	   reconcile's refs write, or before an edit of the refs), every later read is
+//	   live. The reconcile under test always selects a new CompositionRevision, so
+//	   the revision fetcher persists spec.compositionRevisionRef from that stale
+//	   copy before Compose runs. The property is only asserted where it speaks:
+//	   if the scripted pipeline fails, no composed resource is written and the
+//	   STORED spec.resourceRefs are unchanged (a stale copy must not overwrite
+//	   them). If the script would succeed only the one-directional clauses are
+//	   kept (deleted is a subset of expected, never a still-desired resource),
+//	   because a reconcile that is refused with a conflict legitimately does nothing.
 package c03
 
 import (
@@ -178,6 +191,10 @@ type scenario struct {
 	// CacheLag gives the reconciler distinct clients (M7): the cached one has not yet seen composed
 	// resources that were written exactly once, the uncached one (same Run) reads the live store.
 	CacheLag bool `json:"cacheLag,omitempty"`
+	// StaleXR (M9): the first read of the XR in the reconcile under test is stale. Prev, if set, is what an
+	// even earlier successful script composed, so that the stale copy references other resources than Good.
+	StaleXR bool     `json:"staleXR,omitempty"`
+	Prev    []string `json:"prev,omitempty"`
 	// Perturbations of spec.resourceRefs itself (M6). DupRef: the reference to this resource appears twice
 	// (the list is atomic, the API server admits duplicates). Twin: a second, distinct object controlled by
 	// the XR and carrying the same composition-resource-name annotation exists and is referenced too.
@@ -215,6 +232,7 @@ type verdict struct {
 	CallBudget map[int]int // step -> number of calls the protocol makes (for the boundedness check)
 	WeakPair   string      // pipeline mode: name whose two objects are left out of the set equation (M6)
 	FaultClass string      // filled in after the run, for labels only: which observation read the injected error hit
+	StaleClass string      // filled in after the run, for labels only: what the stale first read of the XR showed and what the reconcile wrote
 }
 
 const twinSuffix = "+twin"
@@ -511,6 +529,7 @@ type world struct {
 	missingRefs []string
 	// which read the injected observe error hit in the last reconcile (labels only)
 	faultClass string
+	staleClass string
 	// content of each composed object right after the good phase
 	origContent map[string]verifsim.Obj
 }
@@ -537,12 +556,18 @@ func setup(sc scenario) (*world, string) {
 	env := verifenv.NewXREnv()
 	w := &world{env: env, sc: sc, runner: &scriptRunner{fixed: sc.Fixed, ns: sc.NS}, byName: map[string]verifsim.Key{}, byKey: map[verifsim.Key]string{}, decoys: map[verifsim.Key]bool{}, origContent: map[string]verifsim.Obj{}}
 	env.Runner = w.runner
-	if sc.Pipeline {
-		good := stepSpec{}
-		for _, n := range sc.Good {
-			good.Ops = append(good.Ops, op{Op: "add", A: n})
+	adds := func(names []string) []stepSpec {
+		st := stepSpec{}
+		for _, n := range names {
+			st.Ops = append(st.Ops, op{Op: "add", A: n})
 		}
-		w.runner.reset([]stepSpec{good}, "good")
+		return []stepSpec{st}
+	}
+	if sc.Pipeline {
+		w.runner.reset(adds(sc.Good), "good")
+		if sc.Prev != nil {
+			w.runner.reset(adds(sc.Prev), "good")
+		}
 		env.InstallComposition(pipelineComposition(1, "good"), 1)
 	} else {
 		env.InstallComposition(ptComposition(sc.Good, "good"), 1)
@@ -550,10 +575,19 @@ func setup(sc scenario) (*world, string) {
 	xr := env.NewXR(xrName, "comp")
 	env.Sim.MustCreate("user", xr)
 	w.xrUID = string(xr.GetUID())
-	for i := 0; i < 2; i++ {
-		w.runner.calls = map[int]int{}
-		if _, err := env.Reconcile(env.Sim.NewRun("xr-controller", nil), xrName); err != nil {
-			return nil, fmt.Sprintf("setup reconcile %d with the good script failed: %v", i, err)
+	phases := 1
+	if sc.Pipeline && sc.Prev != nil {
+		phases = 2
+	}
+	for ph := 0; ph < phases; ph++ {
+		if ph == 1 {
+			w.runner.reset(adds(sc.Good), "good")
+		}
+		for i := 0; i < 2; i++ {
+			w.runner.calls = map[int]int{}
+			if _, err := env.Reconcile(env.Sim.NewRun("xr-controller", nil), xrName); err != nil {
+				return nil, fmt.Sprintf("setup reconcile %d.%d with the good script failed: %v", ph, i, err)
+			}
 		}
 	}
 	for _, k := range env.Sim.AllKeys() {
@@ -692,12 +726,25 @@ func (w *world) reconcileUnderTest() ([]verifsim.Write, error, string) {
 		w.runner.calls = map[int]int{}
 		w.runner.runaway = ""
 		run := env.Sim.NewRun("xr-controller", plan)
-		if !w.sc.CacheLag {
+		staleN := 0
+		if w.sc.StaleXR && w.sc.Pipeline {
+			staleN = w.staleLag()
+		}
+		if !w.sc.CacheLag && staleN == 0 {
 			_, err := env.Reconcile(run, xrName)
 			return run, err
 		}
+		xrKey := env.XRKey(xrName)
+		xrReads := 0
 		cached := run.StaleClient(func(k verifsim.Key) int {
-			if k.Group == "example.org" && composedKind(k.Kind) {
+			if k == xrKey {
+				xrReads++
+				if xrReads == 1 {
+					return staleN // first read stale, the cache has caught up afterwards (M9)
+				}
+				return 0
+			}
+			if w.sc.CacheLag && k.Group == "example.org" && composedKind(k.Kind) {
 				return verifsim.LagHideNew
 			}
 			return 0
@@ -707,7 +754,7 @@ func (w *world) reconcileUnderTest() ([]verifsim.Write, error, string) {
 	}
 	var plan map[int]verifsim.Fault
 	w.faultClass = ""
-	if n := w.sc.ObserveFault; n != "" {
+	if n := w.sc.ObserveFault; n != "" && !w.sc.StaleXR {
 		// Learn the index of the API call that observes the chosen reference, then rewind.
 		want := "get " + w.byName[n].String()
 		snap := env.Sim.Snapshot()
@@ -749,8 +796,49 @@ func (w *world) reconcileUnderTest() ([]verifsim.Write, error, string) {
 		}
 	}
 	start := env.Sim.LogLen()
+	w.staleClass = ""
+	if w.sc.StaleXR && w.sc.Pipeline {
+		if w.staleLag() > 0 {
+			w.staleClass = "first-XR-read-stale+new-revision"
+		} else {
+			w.staleClass = "no-older-version-with-other-refs"
+		}
+	}
 	_, err := reconcile(plan)
-	return env.Sim.Log()[start:], err, ""
+	log := env.Sim.Log()[start:]
+	if strings.HasPrefix(w.staleClass, "first") {
+		wrote := "XR-spec-untouched"
+		for _, wr := range log {
+			if wr.Key == env.XRKey(xrName) && wr.Changed && wr.Sub == "" {
+				wrote = "XR-spec-written"
+			}
+		}
+		w.staleClass += "," + wrote
+	}
+	return log, err, ""
+}
+
+// staleLag returns how many versions back the newest stored XR version lies whose spec.resourceRefs differ
+// from the stored ones (0 = there is none).
+func (w *world) staleLag() int {
+	xrKey := w.env.XRKey(xrName)
+	cur := refsOf(w.env.Sim.Get(xrKey))
+	for n := 1; n < 200; n++ {
+		c := w.env.Sim.NewRun("harness-probe", nil).StaleClient(func(k verifsim.Key) int {
+			if k == xrKey {
+				return n
+			}
+			return 0
+		})
+		old := verifenv.NewUnstructuredXR(w.env.XRGVK, xrName)
+		if err := c.Get(context.Background(), types.NamespacedName{Name: xrName}, old); err != nil {
+			return 0
+		}
+		if refsOf(old.Object) != cur {
+			return n
+		}
+	}
+	return 0
 }
 
 // foreignBefore reports whether some existing referenced resource is controlled by another owner.
@@ -838,6 +926,7 @@ func judge(sc scenario) (verdict, []string) {
 	}
 	out := w.judgeOnce(v)
 	v.FaultClass = w.faultClass
+	v.StaleClass = w.staleClass
 	if len(w.missingRefs) > 0 {
 		out = append([]string{fmt.Sprintf("GC cannot be exact: after two successful reconciles spec.resourceRefs %s has no reference (kind, namespace, name) to composed %s; an unreferenced resource is never observed and never collected once it stops being desired", refsOf(w.env.Sim.Get(w.env.XRKey(xrName))), strings.Join(w.missingRefs, ", "))}, out...)
 	}
@@ -914,6 +1003,13 @@ func (w *world) judgeOnce(v verdict) []string {
 		}
 		if b, a := refsOf(before), refsOf(after); a != b {
 			out = append(out, fmt.Sprintf("pipeline fails (%s at step %d) but spec.resourceRefs changed:\n  before %s\n  after  %s", v.Why, v.FailStep, b, a))
+		}
+	case !v.Fails && strings.HasPrefix(w.staleClass, "first"):
+		// M9: the script would succeed, but the reconcile may legitimately have been refused; one direction only.
+		for _, n := range sorted(deleted) {
+			if !v.ExpectDel[n] && baseName(n) != v.WeakPair {
+				out = append(out, fmt.Sprintf("stale first read of the XR: deleted %q which is not collectable (collectable %v, final desired %v)", n, sorted(v.ExpectDel), sorted(v.Desired)))
+			}
 		}
 	case !v.Fails:
 		if sc.Pipeline {
@@ -1067,7 +1163,19 @@ func genScenario() *rapid.Generator[scenario] {
 			}
 		}
 		sc.CacheLag = rapid.IntRange(0, 2).Draw(t, "cachelag") == 0
-		if len(sc.Good) > 0 && rapid.IntRange(0, 5).Draw(t, "observefault") == 0 {
+		if sc.Pipeline && len(sc.Good) > 0 && rapid.IntRange(0, 5).Draw(t, "stalexr") == 0 {
+			sc.StaleXR = true
+			if rapid.Bool().Draw(t, "hasprev") {
+				prev := map[string]bool{}
+				for i := 0; i < poolSize; i++ {
+					if rapid.Bool().Draw(t, "inprev") && compatible(prev, &sc, pname(i)) {
+						prev[pname(i)] = true
+					}
+				}
+				sc.Prev = sorted(prev)
+			}
+		}
+		if !sc.StaleXR && len(sc.Good) > 0 && rapid.IntRange(0, 5).Draw(t, "observefault") == 0 {
 			sc.ObserveFault = rapid.SampledFrom(sc.Good).Draw(t, "faultref")
 			sc.ObserveFaultLive = rapid.IntRange(0, 2).Draw(t, "faultlive") > 0
 			sc.ObserveFaultErr = rapid.SampledFrom([]string{"server", "timeout", "conflict"}).Draw(t, "faulterr")
@@ -1243,6 +1351,19 @@ func classify(rec *verifkit.Recorder, sc scenario, v verdict) {
 	}
 	if sc.CacheLag {
 		rec.Label("cache-lag(" + mode + ")")
+	}
+	if v.StaleClass != "" {
+		script := "script-would-succeed"
+		if v.Fails {
+			script = "pipeline-fails(" + v.Why + ")"
+		}
+		rec.Labelf("stale-xr:%s,%s", v.StaleClass, script)
+		if v.Fails && strings.HasPrefix(v.StaleClass, "first") {
+			rec.Label("stale-xr:ANY-first-XR-read-stale+new-revision+failing-pipeline")
+		}
+		if sc.Prev != nil {
+			rec.Label("stale-xr:stale-copy-shows-an-earlier-script's-refs")
+		}
 	}
 	if v.FaultClass != "" {
 		rec.Labelf("observe:%s,%s", v.FaultClass, mode)
@@ -1421,6 +1542,10 @@ func TestVerifC03Pinned(t *testing.T) {
 		{name: "same kind and name in two namespaces, both stop being desired", sc: scenario{Pipeline: true, Good: []string{"r0", "r1", "r3"}, NS: map[string]string{"r1": "ns-a", "r3": "ns-b", "r5": "ns-a"}, Fixed: map[string]string{"r1": "app-config", "r3": "app-config"}, Perturb: map[string]string{"r0": pPresent, "r1": pUncontrolled, "r3": pTerminating}, Steps: []stepSpec{{Ops: add("r0")}}}, expectDel: "r1,r3"},
 		{name: "same kind and name in a second namespace is added by the reconcile under test", sc: scenario{Pipeline: true, Good: []string{"r1"}, NS: map[string]string{"r1": "ns-a", "r3": "ns-b", "r5": "ns-a"}, Fixed: map[string]string{"r1": "app-config", "r3": "app-config"}, Perturb: map[string]string{"r1": pPresent}, Steps: []stepSpec{{KeepObserved: true, Ops: add("r3")}}}, expectDel: ""},
 		{name: "generated names in two namespaces, fatal result", sc: scenario{Pipeline: true, Good: []string{"r1", "r3"}, NS: map[string]string{"r1": "ns-a", "r3": "ns-b", "r5": "ns-b"}, Perturb: map[string]string{"r1": pPresent, "r3": pPresent}, Steps: []stepSpec{{Ops: add("r1")}, {Fail: "fatal"}}}, fails: true},
+		{name: "stale first XR read (refs before the first write), new revision, fatal pipeline", sc: scenario{Pipeline: true, Good: []string{"r0", "r1"}, Perturb: all, StaleXR: true, Steps: []stepSpec{{Ops: add("r0")}, {Fail: "fatal"}}}, fails: true},
+		{name: "stale first XR read (refs of an earlier script), new revision, go error", sc: scenario{Pipeline: true, Prev: []string{"r0", "r2", "r3"}, Good: []string{"r0", "r1"}, Perturb: all, StaleXR: true, Steps: []stepSpec{{Ops: add("r0"), Fail: "error"}}}, fails: true},
+		{name: "stale first XR read (before a refs edit), new revision, unstable requirements", sc: scenario{Pipeline: true, Good: []string{"r0", "r1"}, Perturb: all, StaleXR: true, DupRef: "r1", Steps: []stepSpec{{Ops: add("r0"), Reqs: changes(6)}}}, fails: true},
+		{name: "stale first XR read, new revision, script would succeed", sc: scenario{Pipeline: true, Prev: []string{"r2"}, Good: []string{"r0", "r1"}, Perturb: all, StaleXR: true, Steps: []stepSpec{{Ops: add("r0")}}}, expectDel: "r1"},
 		{name: "P&T foreign-controlled without template", sc: scenario{Good: []string{"r0", "r1"}, Perturb: map[string]string{"r0": pForeign, "r1": pPresent}, Templates: []string{"r1"}}, fails: true},
 	}
 	for i, row := range rows {
